@@ -16,8 +16,11 @@ CLAIM = dict(
          "permutations of node creation. Coq theorems: canonical_is_highest_on_track (the aggregator's name bookkeeping "
          "always answers with ONE entry per semver track, named for the highest aggregated version, for every aggregation "
          "order), canon_order_independent, imports_spec and exports_spec (the imports/exports of the model encoder's log equal "
-         "the specification for every emission order and every type-encoder behaviour), with _refuted witnesses for the "
-         "side conditions.",
+         "the specification for every emission order and every type-encoder behaviour), exports_spec_reachable (for every graph "
+         "built through the API the exports of the output are exactly the export map, definitions included: export() renames a "
+         "definition), a _refuted witness for the remaining side condition (import dedup by interface id) and the regression "
+         "instance of the repaired definition-rename defect. The export names of the real output are also compared with the "
+         "export map the implementation itself reports (get_export).",
     design_ref="DESIGN.md §5 C03",
     note="Trusted: Coq kernel, extraction, OCaml driver, Rust harness incl. the section reader. Dependency-interface "
          "imports made by TypeEncoder::import_deps are recognised by name (an interface id of the universe, instance sort), "
@@ -31,9 +34,9 @@ W_SHARED = "H imp 14 3;imp 13 8;imp 29 3"
 W_DEPLOW = "H reg 11;reg 10;inst 1 0;alias 0 19;inst 0 0;setarg 2 30 1;inst 0 0"
 
 PROPOSED_KNOWN = [
-    dict(property=PID, id="C03-def-extra-export-name", status="known", signature=ec.SIG_DEF_EXTRA_NAME, witness=W_DEF,
-         text="export(definition_node, \"bar\") on a type definition `foo`: get_export answers for both names, the encoded "
-              "component exports only `bar`"),
+    dict(property=PID, id="C03-def-extra-export-name", status="fixed", signature=ec.SIG_DEF_EXTRA_NAME, witness=W_DEF,
+         text="fixed: property=C03 1d500c2 export(definition_node, \"bar\") on a type definition `foo`: get_export answered for "
+              "both names, the encoded component exported only `bar`"),
     dict(property=PID, id="C03-import-dedup-by-interface-id", status="known", signature=ec.SIG_IMPORT_DEDUP, witness=W_DEDUP,
          text="explicit import `my-t` of an interface whose id (a:b/c@0.2.0) is also imported implicitly: graph.imports() lists "
               "`my-t`, the output does not import it"),
@@ -205,10 +208,21 @@ def check_row(row, u):
                 ids_exp.append("C03-def-extra-export-name")
             else:
                 why.append(f"exports differ: missing {sorted(sex - set(rex))} unexpected {sorted(set(rex) - sex)}")
+        # agreement with the export map of the IMPLEMENTATION's graph (get_export over the name pool), definitions included
+        map_names = ec.impl_export_names(row, names)
+        notes = []
+        if {n for n, _ in rex} != map_names:
+            if bad_defs and {n for n, _ in rex} - bad_defs == map_names - bad_defs:
+                ids_exp.append("C03-def-extra-export-name")
+                notes.append(f"the output exports {sorted(n for n, _ in rex)} but the graph's export map has {sorted(map_names)} "
+                             "(a type definition designated by several names: only its last name is encoded)")
+            else:
+                why.append(f"graph export map {sorted(map_names)} != output exports {sorted(n for n, _ in rex)}")
         if why:
             fails.append((m, "; ".join(why)[:600], []))
         elif ids_imp or ids_exp:
-            fails.append((m, "imports/exports differ from the specification exactly as described by the known finding(s)",
+            fails.append((m, "imports/exports differ from the specification exactly as described by the finding(s) "
+                          + ", ".join(sorted(set(ids_imp + ids_exp))) + ("; " + "; ".join(notes) if notes else ""),
                           sorted(set(ids_imp + ids_exp))))
     return fails
 
